@@ -85,7 +85,7 @@ def interp : Interp Val := fun f args kws =>
   | "kw", [a] => .ok (.tuple [.str "kw", a, kwGet kws "k" (.int 1), kwGet kws "j" (.int 2)])
   | "pair", [x] => .ok (.tuple [.tuple [.str "L", x], .tuple [.str "R", x]])
   | "trip", [x] => .ok (.list [x, .tuple [x, x], .dict [("k", x)]])
-  | "mkd", [x] => .ok (.dict [("a", x), ("b", .tuple [.str "b", x]), ("n", .list [x, x])])
+  | "mkd", [x] => .ok (.dict [("a", x), ("b", .tuple [.str "b", x]), ("n", .list [x, x]), ("(0,1)", .tuple [.str "t", x])])
   | "ispos", [x] => .ok (.bool (match x with | .int i => i > 0 | .bool b => b | _ => false))
   | "num", [x] => .ok (if isIntNotBool x then x else .int 3)
   | "const5", [] => .ok (.int 5)
